@@ -253,6 +253,10 @@ def mon_trace(run, prop):
             'urls': [url_of(x + 1) for x in range(len(run.exchanges))], 'ev': ev}
 
 
+STRICT_MAX_EVENTS = 250
+STRICT_MAX_OCTETS = 1200
+
+
 def units_of(cm):
     """Sent(cm) as a list of (abstract item, concrete octets): header-line token <-> line content, everything
     else octet by octet.  None when the truncation cuts a header-line token."""
@@ -283,6 +287,8 @@ def strict_trace(run):
     abstract counterpart (a message cut inside a header-line token, a content-coded body, a read that slices a
     header line)."""
     amsgs = []
+    if len(run.ev) > STRICT_MAX_EVENTS or sum(len(M.full(ex['cm'])) for ex in run.exchanges) > STRICT_MAX_OCTETS:
+        return None       # every state of the trace spec carries the messages: large ones are left to the monitor
     for ex in run.exchanges:
         if ex['cm']['coded']:
             return None
